@@ -62,7 +62,7 @@ def monos(shape) -> Optional[Set[Tuple[int, FrozenSet[str], Tuple]]]:
     return {(m.sign, m.facs, m.exps, m.dec) for m in shape}
 
 
-def sigs(shape, drop_prefixes=("lookup.", "param.")) -> Optional[Set[Tuple[int, FrozenSet[str]]]]:
+def sigs(shape, drop_prefixes=("lookup.", "param.", "rows.")) -> Optional[Set[Tuple[int, FrozenSet[str]]]]:
     if shape is sh.TOP or sh.is_bad(shape):
         return None
     out = set()
